@@ -14,11 +14,13 @@ type Script struct {
 	Name string `json:"name"`
 	// OnPublish: "" (not provided) | pass | modify | reject | ignore | code | error
 	OnPublish string `json:"on_publish,omitempty"`
-	// OnPacketRead: "" | pass | modify | reject   (applies to PUBLISH packets only; others pass)
+	// OnPacketRead: "" | pass | modify | reject | error   (applies to PUBLISH packets only; others pass)
 	OnPacketRead string `json:"on_packet_read,omitempty"`
 	// OnSubscribe / OnUnsubscribe: "" | pass | modify (modify rewrites filter "x" to "x/<name>")
 	OnSubscribe   string `json:"on_subscribe,omitempty"`
 	OnUnsubscribe string `json:"on_unsubscribe,omitempty"`
+	// OnConnect: "" (not provided) | pass | refuse (returns an error: the connection must not be admitted)
+	OnConnect string `json:"on_connect,omitempty"`
 	// Auth / ACL: "" (not provided) | allow | deny
 	Auth string `json:"auth,omitempty"`
 	ACL  string `json:"acl,omitempty"`
@@ -59,6 +61,8 @@ func (h *scriptHook) Provides(b byte) bool {
 		return h.s.OnSubscribe != ""
 	case mqtt.OnUnsubscribe:
 		return h.s.OnUnsubscribe != ""
+	case mqtt.OnConnect:
+		return h.s.OnConnect != ""
 	case mqtt.OnConnectAuthenticate:
 		return h.s.Auth != ""
 	case mqtt.OnACLCheck:
@@ -109,6 +113,11 @@ func (h *scriptHook) OnPacketRead(cl *mqtt.Client, pk packets.Packet) (packets.P
 		return pk, nil
 	case "reject":
 		return pk, packets.ErrRejectPacket
+	case "error":
+		// an ordinary error (not a rejection): this hook's result is set aside, the chain goes on with what the previous
+		// hook produced
+		pk.Payload = append(append([]byte{}, pk.Payload...), []byte("~FAILED-"+h.s.Name)...)
+		return pk, ErrScriptPlain
 	}
 	return pk, nil
 }
@@ -139,6 +148,14 @@ func (h *scriptHook) OnUnsubscribe(cl *mqtt.Client, pk packets.Packet) packets.P
 		pk.Filters = fs
 	}
 	return pk
+}
+
+func (h *scriptHook) OnConnect(cl *mqtt.Client, pk packets.Packet) error {
+	h.log("connect", cl, "", nil)
+	if h.s.OnConnect == "refuse" {
+		return ErrScriptPlain
+	}
+	return nil
 }
 
 func (h *scriptHook) OnConnectAuthenticate(cl *mqtt.Client, pk packets.Packet) bool {
